@@ -39,7 +39,8 @@ func basicPool(b string) []*ty.Val {
 	case "bool":
 		return []*ty.Val{{K: ty.VBool, Bool: false}, {K: ty.VBool, Bool: true}}
 	case "int", "int64":
-		return []*ty.Val{iv(0), iv(1), iv(-1), iv(math.MinInt64), iv(math.MaxInt64), iv(42)}
+		// two neighbours beyond 2^53: a comparison or a hash that goes through float64 cannot tell them apart
+		return []*ty.Val{iv(0), iv(1), iv(-1), iv(math.MinInt64), iv(math.MaxInt64), iv(42), iv(math.MaxInt64 - 1)}
 	case "int8":
 		return []*ty.Val{iv(0), iv(1), iv(-1), iv(-128), iv(127)}
 	case "int16":
